@@ -489,6 +489,39 @@ def resolve_last(oplists):
     return oplists
 
 
+def apalache_c05(tier):
+    """Symbolic inductive step of C05 with Apalache (spec/apalache/Ind_C05.tla): strings are unbounded integers."""
+    import re
+    import shutil
+    import subprocess
+    d = tlc.scratch("apa")
+    res = {"module": "spec/apalache/Ind_C05.tla", "bounds": "<=3 records, <=2 synonyms per side, strings = unbounded integers, casefold = x div 2"}
+    try:
+        def run(inv, length):
+            p = subprocess.run(["apalache-mc", "check", "--init=IndInit", f"--inv={inv}", f"--length={length}", f"--out-dir={d}", "Ind_C05.tla"],
+                               cwd=os.path.join(tlc.SPEC, "apalache"), stdout=subprocess.PIPE, stderr=subprocess.STDOUT, text=True, timeout=900)
+            m = re.search(r"The outcome is: (\w+)", p.stdout)
+            return (m.group(1) if m else "?"), p.stdout
+        t = time.time()
+        out, log = run("IndInv", 1)
+        res["inductive_step"] = out
+        res["wall_s"] = round(time.time() - t, 1)
+        if out != "NoError":
+            raise MachineryError("Apalache: IndInv /\\ AddRecord => IndInv' does not hold for the specification's AddRecord\n" + log[-1500:])
+        if tier == "thorough":
+            for w in ("NoThreeRecords", "NeverMerged"):
+                o, log = run(w, 0)
+                res["witness_" + w] = o
+                if o != "Error":
+                    raise MachineryError(f"Apalache vacuity: the initial condition does not admit a state violating {w}")
+        return res
+    except subprocess.TimeoutExpired:
+        res["inductive_step"] = "timeout (not relied upon)"
+        return res
+    finally:
+        shutil.rmtree(d, ignore_errors=True)
+
+
 def replay_file(pid, tid, l, clause, ops, seed, opts):
     d = os.path.join(tlc.VERIF, "out", "replays")
     os.makedirs(d, exist_ok=True)
@@ -523,6 +556,7 @@ def check(pid, tier, seed):
                 if not res["cex"]:
                     raise MachineryError(f"TLC reports {res['violated']} violated on {model} but no counterexample could be parsed")
                 cex_ops.append((model, res["violated"], world.conc_hist(res["cex"], world.CONCRETE["ascii"])))
+    apa = apalache_c05(tier) if pid == "C05" else None
     sim_stats = None
     sim_ops = []
     if pid == "C10" or (tier == "thorough" and pid in ("C05", "C09", "C11", "C12")):
@@ -598,7 +632,7 @@ def check(pid, tier, seed):
                 "distinct operation lists executed on the implementation (each creates at least one converter and is followed by a probe table)",
         "exhaustive": all(not m["violated"] for m in models),
         "models": models, "trace_events": n_events, "event_kinds": kinds,
-        "simulation": sim_stats, "repository_tests_as_driver": repo, "behaviours_from_tlc": n_hist, "spec_signature_coverage": STRATA.get(pid), "behaviours_from_simulation": len(sim_ops), "behaviours_random": len(oplists) - n_hist - n_cex - len(sim_ops),
+        "simulation": sim_stats, "apalache_inductive_step": apa, "repository_tests_as_driver": repo, "behaviours_from_tlc": n_hist, "spec_signature_coverage": STRATA.get(pid), "behaviours_from_simulation": len(sim_ops), "behaviours_random": len(oplists) - n_hist - n_cex - len(sim_ops),
         "concretisations": CMAPS[tier], "trace_validation": st,
         "other_clauses_failed": other, "known_findings": [k["id"] for k in known],
         "checker_cmd": "tlc -workers 16 spec/mc/MC_*.tla ; TRACE_FILE=<batch> tlc spec/Trace.tla",
